@@ -7,7 +7,7 @@
  *   - all threads of a round make the first use of fresh TLS keys at the same time (publication race);
  *   - set / replace / values left at exit with a counting notifier;
  *   - the creator drops detached handles immediately (possibly before the thread runs).
- * Known and excluded: p_uthread_local_free leaks the native key block (F12 / C20): one block per used key. */
+ * p_uthread_local_free releases the native key and its block with the wrapper: a round leaves no block behind. */
 #include <plibsys.h>
 #include <pthread.h>
 #include <stdio.h>
@@ -130,13 +130,13 @@ int main (int argc, char **argv) {
 		}
 		/* detached threads: wait until their functions are done and their handles are gone */
 		for (int spin = 0; spin < 20000; spin++) {
-			if (__atomic_load_n (&finished, __ATOMIC_SEQ_CST) == NT && live () == base + used_keys + NK) break;   /* + the NK wrappers */
+			if (__atomic_load_n (&finished, __ATOMIC_SEQ_CST) == NT && live () == base + 2 * NK) break;   /* NK wrappers + NK native-key blocks */
 			usleep (500);
 		}
 		for (int k = 0; k < NK; k++) p_uthread_local_free (keys[k]);
-		if (live () != base + used_keys) {
-			fprintf (stderr, "round %d: allocator imbalance: %ld live blocks, expected %ld (+%d leaked native-key blocks, F12)\n",
-				 round, live (), base + used_keys, used_keys);
+		if (live () != base) {
+			fprintf (stderr, "round %d: allocator imbalance: %ld live blocks, expected %ld (after %d keys)\n",
+				 round, live (), base, used_keys);
 			return 1;
 		}
 		if (__atomic_load_n (&notif_calls, __ATOMIC_SEQ_CST) != __atomic_load_n (&notif_expected, __ATOMIC_SEQ_CST)) {
